@@ -235,7 +235,14 @@ func runC03(c *Ctx) {
 	f := PathQuery{Fn: body, Start: wait, Weight: evW, Edge: RestrictBool(waitOK, false)}.Count()
 	c.Check(f.Is(0, 0), "O3.4", bk+":nothing-without-token", wait.Pos(), fmt.Sprintf("Shoot+Report count after Wait==false = %v (want [0,0])", f))
 	nShoot, nRep := 0, 0
-	EachInstr(body, func(in ssa.Instruction) {
+	// the per-token code: the loop body and the helpers of the package it calls (shootOrDiscard, ...)
+	region := FindFuncs(body, 2, func(*ssa.Function) bool { return true })
+	eachRegionInstr := func(f func(ssa.Instruction)) {
+		for _, g := range region {
+			EachInstr(g, f)
+		}
+	}
+	eachRegionInstr(func(in ssa.Instruction) {
 		if IsCall(in, sShoot) {
 			nShoot++
 			c.Check(isShoot(in), "O3.4", bk+":shoot-target", in.Pos(), "Shoot is called on instance.gun with this iteration's ammo")
@@ -255,9 +262,15 @@ func runC03(c *Ctx) {
 		cc := CC(in)
 		return DerivesOnly(cc.Args[0], false, IsFieldLoadPred("Metrics", field))
 	}
-	pd := NewPostDom(body, false)
+	pds := map[*ssa.Function]*PostDom{}
+	pdOf := func(f *ssa.Function) *PostDom {
+		if pds[f] == nil {
+			pds[f] = NewPostDom(f, false)
+		}
+		return pds[f]
+	}
 	var reqs, resps, shoots []ssa.Instruction
-	EachInstr(body, func(in ssa.Instruction) {
+	eachRegionInstr(func(in ssa.Instruction) {
 		switch {
 		case isCounter(in, "Request"):
 			reqs = append(reqs, in)
@@ -272,10 +285,13 @@ func runC03(c *Ctx) {
 		c.Check(isC && v == 1, "O3.5", bk+":counter-increment-is-1", in.Pos(), "Add argument must be the constant 1")
 	}
 	postdomI := func(a, b ssa.Instruction) bool { // a after b on all normal paths
+		if a.Parent() != b.Parent() {
+			return false
+		}
 		if a.Block() == b.Block() {
 			return InstrIndex(a) > InstrIndex(b)
 		}
-		return pd.PostDominates(a.Block(), b.Block())
+		return pdOf(a.Parent()).PostDominates(a.Block(), b.Block())
 	}
 	for _, s := range shoots {
 		okReq, okResp := false, false
